@@ -84,7 +84,10 @@ pub mod types;
 pub mod yamux;
 
 mod bandwidth;
+#[cfg(not(feature = "verif"))]
 mod multistream_select;
+#[cfg(feature = "verif")]
+pub mod multistream_select;
 pub mod utils;
 
 #[cfg(test)]
